@@ -595,6 +595,95 @@ func lk(declared uint32, true_ int) string {
 	return "true-1"
 }
 
+// ---- (vi) tag order: the series key does not depend on the order tags are written in
+
+// tagKeys: a short key, keys extending it by one byte on either side of the
+// separators the tag sort looks at ('=' 0x3d, ',' 0x2c, ' ' 0x20, '\\' 0x5c), escaped
+// separators, and unrelated keys.
+var tagKeys = []string{"a", "a!", "a-", "a.", "a/", "a0", "a9", "a:", "a<", "a>", "a?", "aA", "aa", "a~", `a\=`, `a\,`, `a\ `, "b", "ab", "B", "a-b", "a-"+"-"}
+
+func enumTagOrder(maxTags int) *result {
+	r := newResult()
+	r.fixedClass = "tag-order"
+	var rec func(cur []int)
+	check := func(keys []int) {
+		// canonical form: the same tags written in every order
+		var first []byte
+		var firstLine string
+		var idx []int
+		var perm func(k int)
+		used := make([]bool, len(keys))
+		perm = func(k int) {
+			if k == len(keys) {
+				line := "m"
+				for _, i := range idx {
+					line += "," + tagKeys[keys[i]] + "=v" + fmt.Sprint(keys[i])
+				}
+				line += " f=1 1"
+				r.evals++
+				pts, err, pn := parse([]byte(line))
+				if pn != nil {
+					r.bad("tag-order-panic", line, fmt.Sprint(pn))
+					return
+				}
+				if err != nil || len(pts) != 1 {
+					r.bad("valid-line-rejected", line, fmt.Sprintf("a valid line is not accepted as one point: %q (%v)", line, err))
+					return
+				}
+				r.distinct[fmt.Sprintf("tags:%d", len(keys))] = true
+				key := append([]byte(nil), pts[0].Key()...)
+				if first == nil {
+					first, firstLine = key, line
+				} else if !bytes.Equal(first, key) {
+					r.bad("tag-order-key", line, fmt.Sprintf("the series key depends on the order the tags are written in: %q gives %q, %q gives %q", firstLine, first, line, key))
+				}
+				// keys without escapes: ascending byte order in the series key
+				tags := pts[0].Tags()
+				plain := true
+				for _, t := range tags {
+					if bytes.ContainsAny(t.Key, "=, ") {
+						plain = false
+					}
+				}
+				for i := 1; plain && i < len(tags); i++ {
+					if bytes.Compare(tags[i-1].Key, tags[i].Key) >= 0 {
+						r.bad("tag-order-key", line, fmt.Sprintf("tags of %q are not in ascending key order: %v", line, tags))
+						break
+					}
+				}
+				return
+			}
+			for i := range keys {
+				if !used[i] {
+					used[i] = true
+					idx = append(idx, i)
+					perm(k + 1)
+					idx = idx[:len(idx)-1]
+					used[i] = false
+				}
+			}
+		}
+		perm(0)
+	}
+	rec = func(cur []int) {
+		if len(cur) >= 2 {
+			check(cur)
+		}
+		if len(cur) == maxTags {
+			return
+		}
+		start := 0
+		if len(cur) > 0 {
+			start = cur[len(cur)-1] + 1
+		}
+		for i := start; i < len(tagKeys); i++ {
+			rec(append(cur, i))
+		}
+	}
+	rec(nil)
+	return r
+}
+
 // ---- (v) line independence
 
 func enumIndependence(accepted []string, shortL int) *result {
@@ -706,6 +795,7 @@ func TestCheck(t *testing.T) {
 	emit(fmt.Sprintf("strings<=%d over sigma16", L), rs, true, map[string]any{"accepted": rs.accepted})
 	emit("token-sequences", enumTokens(c, c.Pick(2, 3)), true, nil)
 	emit("constructive", enumConstructive(), true, nil)
+	emit("tag-order", enumTagOrder(c.Pick(3, 4)), true, nil)
 	emit("binary-frames", enumBinary(c.Pick(3, 4)), true, nil)
 	emit("line-independence", enumIndependence(rs.acceptedS, c.Pick(2, 3)), true, map[string]any{"accepted_lines": len(rs.acceptedS)})
 	report.ExitCode = c.Finish()
